@@ -35,6 +35,7 @@ Dev_StcPreDec(e, s, x, prop) ==
                           !.wr = { << <<ea, s.ccr>>, <<ea + 1, -1>> >>, << <<ea, -1>>, <<ea + 1, s.ccr>> >> },
                           !.cyc = InstrCost(r.cy, s.pc, ea, -1, -1, BusRegs(s.mem))]
      IN IF up \/ ~CanAccess(ea, 2) THEN e.res = "err"
+        ELSE IF IsPortReg(ea) \/ IsPortReg(ea + 1) THEN e.res = "ok"       \* the (wrongly placed) store hits a port register: its effects are C16's business
         ELSE IF prop = "C20" THEN e.res = "ok" /\ (y.cyc >= 0 => e.st = y.cyc)
         ELSE e.res = "ok" /\ PostOK(e, s, y) /\ e.con = <<>> /\ e.msgs = <<>>
 
